@@ -44,6 +44,9 @@ structure DSess where
   names     : List SId := []        -- stream ids in order of first appearance: printed name of `names[i]` is t(i+1)
   reqIds    : List ReqId := []      -- every request id ever POSTed on this session (to enumerate `requestStreams`)
   subscribed : Bool := false        -- `resources/subscribe` was answered: entitled to `resources/updated`
+  direct    : Bool := false         -- the application hands the session's requests to `StreamableServerTransport.ServeHTTP`
+                                    -- itself (no `StreamableHTTPHandler`): no session table (no 404), no DELETE (405), and
+                                    -- the request context carries no protocol version (treated as 2025-03-26)
 
 structure DMon where
   core   : Mon.MonS String String := { store := false, jsonMode := false }   -- the typed monitor core
@@ -417,7 +420,7 @@ def modelOp (d : DState) (toks : List String) : Option OpOut :=
   | "init" :: n :: _ =>
     let id := ((kvGet toks "id").bind String.toNat?).getD 0
     let v := parseVer (kvGet toks "v")
-    let s : DSess := { name := n, conn := init (mkCfg d false), reqIds := [id] }
+    let s : DSess := { name := n, conn := init (mkCfg d false), reqIds := [id], direct := kvGet toks "dt" == some "1" }
     let (d1, s1, _) := applyLabels d s [.post [id] false v (parseBudget (kvGet toks "b")),
                                         .write (.resp id s!"R.{id}.init") (some id) false]
     let (d2, s2) := settle d1 s1
@@ -552,6 +555,8 @@ def modelOp (d : DState) (toks : List String) : Option OpOut :=
   | ["delete", n] =>
     some <| withSess d n fun s =>
       if s.gone then let (d1, t) := handlerExch d 404; { d := d1, extra := [t], endsX := [d1.nex], snaps := [n] } else
+      -- `StreamableServerTransport.ServeHTTP` serves GET and POST only: 405, the session lives on
+      if s.direct then let (d1, t) := handlerExch d 405; { d := d1, extra := [t], endsX := [d1.nex], snaps := [n] } else
       let (d0, t) := handlerExch d 204
       let s := { s with closing := true, gone := true }
       let (d2, s2) := settle d0 s
@@ -937,7 +942,9 @@ def DMon.onRecord (m : DMon) (d : DState) (toks : List String) (impl : String) :
           (m, some "C10: a response produced by the handler reached neither an exchange nor the store (lost)")
         else (m, none)
       else (m, none)
-    | ["delete", n] => ({ m with gone := m.gone ++ [n] }, none)
+    | ["delete", n] =>
+      -- (a session served by `transport.ServeHTTP` directly answers DELETE with 405 and lives on)
+      if itoks.any (·.endsWith ":405") then (m, none) else ({ m with gone := m.gone ++ [n] }, none)
     | ["kill", n] => ({ m with gone := m.gone ++ [n] }, none)
     | _ => (m, none)
   -- C02 / C10 on the streamable server (typed core `Mon.idStep`): a call is refused as "duplicate in-flight id" only if one of
@@ -983,12 +990,17 @@ def engine (prop : String) : Engine DState where
       -- `af=1` (last token of an `emit` / `resp`): the event store fails the `Append` of this op's write
       let af := toks.getLast? == some "af=1" && (toks.head? == some "emit" || toks.head? == some "resp") && d.store
       let toks := if toks.getLast? == some "af=1" then toks.dropLast else toks
+      -- a session served by `transport.ServeHTTP` directly: the handler is what copies the Mcp-Protocol-Version header into
+      -- the request context, so every request of such a session is served as 2025-03-26 (an initialize still carries its
+      -- version in its body: `v=` is kept)
+      let isDirect := ((toks[1]?).bind (getSess d)).map (·.direct) == some true
+      let mtoks := if isDirect then toks.map fun t => if t.startsWith "hv=" then "hv=a" else t else toks
       -- evictions are choices of the store (they depend on byte sizes): the model takes them from the record
       let itoks0 := words impl
       let d := { d with evicts := parsePurges itoks0, ptoks := itoks0.filter (·.startsWith "p:"), win := itoks0.contains "win=1", af := af }
       -- (they happen inside `Append`, before the new entry is added: for a plain op they take effect at its end —
       -- nothing in it reads the store after an append —, the race ops place them between their two parties)
-      match modelOp d toks with
+      match modelOp d mtoks with
       | none => (d, { model := "bad-op" })
       | some o =>
         let o := { o with d := applyEvicts o.d }
